@@ -223,3 +223,23 @@ Theorem C02_example_clock_step :
   /\ effects_of (run ex_live) (EC (Set_ 0%nat Kill)) = [(SKill 5 9, Some 0)].
 Proof. exact ex_live_ok. Qed.
 Print Assumptions C02_example_clock_step.
+
+
+(* Wave 8 -- no process-wide "who am I" state.  Process() without argument in a process whose own os.getpid() is [me]
+   (Model.process_noarg: the only use the code makes of the caller's PID), [me] being a number of the table psutil reads
+   (PROCFS_PATH on a foreign PID namespace; a forked child; one's own entry after it was reused): with no entry for [me]
+   the construction raises NoSuchProcess; otherwise the new object is bound to whoever owns [me] in the table at that
+   moment, and is_running() on it is "that incarnation is in the table" -- so, with C02_binding_stable,
+   C02_is_running_spec / _monotone and C02_eq_iff_same_incarnation (all quantified over every object of every history,
+   handles on one's own number included), an old handle on one's own number is not running and unequal to a fresh one
+   once the entry was recycled. *)
+Theorem C02_own_pid_handle_follows_table : forall h me,
+  wf_hist h = true -> 0 <= me < PID_MAX ->
+  (owner (run h) me = None -> outcome_of (run h) (EC (process_noarg me)) = Exc NoSuchProcess)
+  /\ (forall n, outcome_of (run h) (EC (process_noarg me)) = Val (RObj n) ->
+        let h' := h ++ [EC (process_noarg me)] in
+        wf_hist h' = true /\ has_obj (run h') n = true /\ obj_pid (run h') n = me
+        /\ owner (run h) me = Some (g_inc (run h') n)
+        /\ outcome_of (run h') (EC (IsRunning n)) = Val (RBool (alive (run h') (g_inc (run h') n)))).
+Proof. exact own_pid_handle_follows_table. Qed.
+Print Assumptions C02_own_pid_handle_follows_table.
